@@ -83,7 +83,7 @@ def split_l2(ctx, files, max_events):
                 if (r["api"] == "copygraph" and r["n"] <= 5 and r["root"] == r["n"] and total < max_events
                         and r["srckind"] == "memory" and r["dstkind"] == "memory" and r["cancel"] >= 0
                         and "foreign" not in r["kinds"]
-                        and not any(f[2] in ("mid", "long") for f in r["faults"])):      # a stream that breaks half-way is not in CopyGraph.tla
+                        and not any(f[2] in ("mid", "long", "race") for f in r["faults"])):      # a stream that breaks half-way / another writer are not in CopyGraph.tla
                     key = (r["n"], r["c"])
             if cur is not None:
                 cur.append(line)
